@@ -847,6 +847,8 @@ void solve_atc_coefs_arr_ccl(convolution_collection *ccl, double *p_uq,
 */
 void multiply_atc_integrals(double *inp_uq, double *out_vq,
                             convolution_collection *ccl, int fwd) {
+    // normalize outside the parallel region; fwd is shared by all threads
+    fwd = fwd ? 1 : 0;
 #pragma omp parallel
     {
         double ALPHA = 1;
@@ -871,7 +873,6 @@ void multiply_atc_integrals(double *inp_uq, double *out_vq,
             GEMM_K = ccl->nalpha;
             GEMM_TRANSA = 't';
             GEMM_LDB = ccl->nalpha;
-            fwd = 1;
             inp_stride = ccl->nalpha;
             out_stride = ccl->nbeta;
         } else {
@@ -881,7 +882,6 @@ void multiply_atc_integrals(double *inp_uq, double *out_vq,
             GEMM_K = ccl->nbeta;
             GEMM_TRANSA = 'n';
             GEMM_LDB = ccl->nbeta;
-            fwd = 0;
             inp_stride = ccl->nbeta;
             out_stride = ccl->nalpha;
         }
@@ -996,6 +996,8 @@ void atc_reciprocal_convolution(double *in_sklmq, double *out_sklmq,
 */
 void multiply_atc_integrals_vk(double *inp_uq, double *out_vq,
                                convolution_collection *ccl, int fwd) {
+    // normalize outside the parallel region; fwd is shared by all threads
+    fwd = fwd ? 1 : 0;
 #pragma omp parallel
     {
         int ish, jsh, ish0, ish1, jsh0, jsh1;
@@ -1013,11 +1015,9 @@ void multiply_atc_integrals_vk(double *inp_uq, double *out_vq,
         if (fwd) {
             atco_inp = ccl->atco_inp;
             atco_out = ccl->atco_out;
-            fwd = 1;
         } else {
             atco_inp = ccl->atco_out;
             atco_out = ccl->atco_inp;
-            fwd = 0;
         }
 #pragma omp for schedule(dynamic, 4)
         for (jsh = 0; jsh < atco_out->nbas; jsh++) {
